@@ -9,6 +9,7 @@ mod proc;
 mod sim;
 mod tick;
 mod types;
+mod wire;
 mod workload;
 
 use driver::CheckOpts;
@@ -23,6 +24,11 @@ fn main() {
     std::panic::set_hook(Box::new(|_| {}));
     let args: Vec<String> = std::env::args().collect();
     let cmd = args.get(1).map(|s| s.as_str()).unwrap_or("help");
+    // the worker processes are forked now, while this process is still tiny (see proc.rs)
+    if matches!(cmd, "check" | "replay" | "selftest" | "hunt" | "debug-seed" | "one" | "iso-batch") {
+        let n = arg_val(&args, "--workers").and_then(|s| s.parse().ok()).unwrap_or(16usize).max(1);
+        proc::spawn_zygotes(n, wire::item_entry);
+    }
     let seed = arg_val(&args, "--seed")
         .or_else(|| std::env::var("VERIF_SEED").ok())
         .and_then(|s| s.trim().parse::<u64>().ok())
